@@ -12,6 +12,7 @@ extern "C" {
 #include <unistd.h>
 #include <sys/stat.h>
 #include <new>
+#include <cstdarg>
 
 #if defined(__SANITIZE_ADDRESS__)
 #define VL_ASAN 1
@@ -463,4 +464,1160 @@ static std::string diffSoPlex(SoPlex& a, SoPlex& b)
 #undef DIFF_S
 }
 
+// ------------------------------------------------------------------------------------------------ case context
+struct Ctx
+{
+   Rng& g;
+   long long k;
+   void* H = nullptr;
+   SoPlex* M = nullptr;
+   int ncalls = 0;
+   int maxCalls = 40;
+   uint64_t seqhash = 1469598103934665603ULL;
+   std::string seq;            // function names so far (replay payload)
+   bool dead = false;          // twin states diverged (or handle gone): stop the history
+   int focus = -1;             // risky function enabled in this case only (-1: none)
+   int nfile = 0;
+   std::vector<std::string> files;
+   std::string lastInstFile, lastBasisFile, lastSetFile;
+   explicit Ctx(Rng& g_, long long k_) : g(g_), k(k_) {}
+   SoPlex& h()
+   {
+      return *(SoPlex*)H;
+   }
+   std::string newFile(const char* ext)
+   {
+      std::string p = cli.tmpdir + "/c20_" + std::to_string((long)getpid()) + "_" + std::to_string(k) + "_" + std::to_string(nfile++) + ext;
+      files.push_back(p);
+      return p;
+   }
+   bool room() const
+   {
+      return !dead && ncalls < maxCalls;
+   }
+};
+
+static void vlog(const char* fmt, ...)
+{
+   if(!verbose) return;
+   va_list ap;
+   va_start(ap, fmt);
+   vfprintf(stderr, fmt, ap);
+   va_end(ap);
+   fputc('\n', stderr);
+}
+
+// scope of one C call
+struct Call
+{
+   Call(Ctx& c, Fn f)
+   {
+      c.ncalls++;
+      c.seqhash = fnv(FN[f], c.seqhash);
+      if(c.seq.size() < 1500) c.seq += std::string(c.seq.empty() ? "" : " ") + (FN[f] + 7);
+      sink().count(std::string("calls.") + FN[f]);
+      sink().count("calls.total");
+      if(verbose) fprintf(stderr, "  C call #%d %s\n", c.ncalls, FN[f]);
+      g_na_n = 0;
+      g_lastfn = FN[f];
+      g_curfn = FN[f];
+      g_track = (int)f;
+   }
+   ~Call()
+   {
+      g_track = -1;
+      g_curfn = nullptr;
+   }
+};
+
+static void viol(Ctx& c, Fn f, const std::string& what, const std::string& detail)
+{
+   sink().viol(std::string("C20:") + FN[f] + ":" + what, detail + " | calls so far: " + c.seq, Json().str("sequence", c.seq).num("ncalls", c.ncalls).done());
+   sink().count("viol." + what);
+}
+static void viol(Ctx& c, const std::string& site, const std::string& what, const std::string& detail)
+{
+   sink().viol("C20:" + site + ":" + what, detail + " | calls so far: " + c.seq, Json().str("sequence", c.seq).num("ncalls", c.ncalls).done());
+   sink().count("viol." + what);
+}
+
+// after every call: all C++ accessors of *(SoPlex*)H and of M agree
+static void post(Ctx& c, Fn f)
+{
+   if(c.dead || c.H == nullptr) return;
+   sink().count("oracle.twin_compared");
+   std::string d = diffSoPlex(c.h(), *c.M);
+   if(!d.empty())
+   {
+      viol(c, f, "mirror-mismatch", "after " + std::string(FN[f]) + " the handle and the C++ mirror differ in " + d);
+      c.dead = true;
+   }
+}
+
+// ------------------------------------------------------------------------------------------------ value generators
+static const int MAXDIM = 7;
+static double pickFinite(Rng& g)
+{
+   static const std::vector<double> v = {1, -1, 2, -2, 3, 0.5, -0.5, 0.25, 1.5, 10, -7, 0.1, -0.3, 1e-3, 100, 1234.5, 4, -4, 6, 0.75};
+   return g.pick(v);
+}
+static double pickBoundVal(Rng& g)
+{
+   if(g.chance(0.06)) return g.chance(0.5) ? 1e21 : -1e21;     // the C test's "infty = 10e+20" (a finite number for SoPlex)
+   if(g.chance(0.25)) return 0.0;
+   return pickFinite(g);
+}
+static void pickRangeD(Rng& g, double inf, double& lo, double& hi)
+{
+   double a = pickBoundVal(g), b = pickBoundVal(g);
+   lo = std::min(a, b);
+   hi = std::max(a, b);
+   int t = g.range(0, 9);
+   if(t == 0) lo = hi;                 // fixed / equation
+   else if(t <= 2) lo = -inf;
+   else if(t <= 4) hi = inf;
+   else if(t == 5)
+   {
+      lo = -inf;
+      hi = inf;
+   }
+}
+static std::vector<double> pickDense(Rng& g, int len, int& nz)
+{
+   std::vector<double> e((size_t)len, 0.0);
+   int t = g.range(0, 9);
+   double dens = t == 0 ? 0.0 : t == 1 ? 1.0 : 0.55;
+   nz = 0;
+   for(int i = 0; i < len; i++) if(g.chance(dens))
+      {
+         e[(size_t)i] = pickFinite(g);
+         nz++;
+      }
+   if(g.chance(0.05) && len > 0 && e[0] == 0.0) e[0] = -0.0;     // negative zero is a zero
+   return e;
+}
+struct LPair
+{
+   long n, d;
+};
+static const long BIG62 = 4611686018427387904L;   // 2^62
+static long pickNum(Rng& g, bool allowZero)
+{
+   int t = g.range(0, 19);
+   long v;
+   if(t == 0) v = BIG62 - g.range(1, 1000);
+   else if(t == 1) v = -(BIG62 - g.range(1, 1000));
+   else if(t == 2) v = BIG62 + g.range(0, 1000);
+   else if(t == 3) v = 1000000L * (g.chance(0.5) ? 1 : -1);
+   else v = g.range(-12, 12);
+   if(v == 0 && !allowZero) v = g.chance(0.5) ? 1 : -1;
+   return v;
+}
+static long pickDen(Rng& g)
+{
+   int t = g.range(0, 19);
+   if(t < 8) return 1;
+   if(t == 8) return BIG62 - g.range(1, 1000);
+   if(t == 9) return BIG62 + 1 + 2 * g.range(0, 500);
+   if(t == 10) return -g.range(1, 9);            // a negative denominator is still a well-defined pair
+   return g.range(2, 12);
+}
+static LPair pickPair(Rng& g, bool allowZero = true)
+{
+   LPair p;
+   p.n = pickNum(g, allowZero);
+   p.d = pickDen(g);
+   return p;
+}
+static void pickRangeQ(Rng& g, LPair& lo, LPair& hi)
+{
+   lo = pickPair(g);
+   hi = pickPair(g);
+   if(g.chance(0.15)) hi = lo;
+   if(mkQ(lo.n, lo.d) > mkQ(hi.n, hi.d)) std::swap(lo, hi);
+}
+// contract length of a dense vector argument over `cur` existing rows/columns: usually cur; sometimes a prefix;
+// sometimes longer (entries beyond cur create new rows/columns, as the C test program does on an empty LP)
+static int pickDenseLen(Rng& g, int cur)
+{
+   int t = g.range(0, 9);
+   if(t == 0 && cur > 0) return g.range(0, cur - 1);
+   if(t <= 2 && cur < MAXDIM) return g.range(cur + 1, std::min(MAXDIM, cur + 2));
+   return cur;
+}
+// dimension argument of an output vector over `cur` elements: exact or larger than needed
+static int pickOutDim(Rng& g, int cur)
+{
+   return g.chance(0.6) ? cur : cur + g.range(1, 3);
+}
+// ------------------------------------------------------------------------------------------------ operations
+// Each op performs one C call on H, the corresponding C++ call on M, checks the values handed back, and returns true;
+// false if its precondition does not hold in the current state (nothing was called).
+static bool ratLP(Ctx& c)
+{
+   return c.M->_rationalLP != nullptr && c.M->intParam(SoPlex::SYNCMODE) != SoPlex::SYNCMODE_ONLYREAL;
+}
+static double INF(Ctx& c)
+{
+   return c.M->realParam(SoPlex::INFTY);
+}
+
+static void opCreate(Ctx& c)
+{
+   {
+      Call _(c, F_create);
+      c.H = SoPlex_create();
+   }
+   c.M = new SoPlex();
+   if(c.H == nullptr)
+   {
+      viol(c, F_create, "null-handle", "SoPlex_create returned NULL");
+      c.dead = true;
+      return;
+   }
+   post(c, F_create);
+}
+static void opFree(Ctx& c)
+{
+   if(c.H != nullptr)
+   {
+      Call _(c, F_free);
+      SoPlex_free(c.H);
+   }
+   c.H = nullptr;
+   delete c.M;
+   c.M = nullptr;
+}
+
+// ---- parameters.  Codes are the C++ enumerators; values: the default / current value for every code (always valid),
+// other values only from a list that keeps the solver inside the region where twin objects behave identically and
+// known solver crashes (ETA update, least-squares scaler, decomposition simplex) are not triggered.
+static bool opSetIntParam(Ctx& c, int code = -1, int value = 0)
+{
+   Rng& g = c.g;
+   if(code < 0)
+   {
+      static const std::vector<std::pair<int, std::vector<int>>> safe =
+      {
+         {SoPlex::OBJSENSE, {-1, 1}}, {SoPlex::REPRESENTATION, {0, 1, 2}}, {SoPlex::ALGORITHM, {0, 1}}, {SoPlex::FACTOR_UPDATE_MAX, {0, 5, 20}},
+         {SoPlex::ITERLIMIT, {0, 3, 50, 1000}}, {SoPlex::REFLIMIT, {-1, 0, 5}}, {SoPlex::STALLREFLIMIT, {-1, 3}}, {SoPlex::DISPLAYFREQ, {1, 200}},
+         {SoPlex::SIMPLIFIER, {0, 1, 3}}, {SoPlex::SCALER, {0, 1, 2, 3, 4, 6}}, {SoPlex::STARTER, {0, 1, 3}}, {SoPlex::PRICER, {0, 1, 2, 3, 4, 5}},
+         {SoPlex::RATIOTESTER, {0, 1, 2, 3}}, {SoPlex::SYNCMODE, {0, 1, 1, 2}}, {SoPlex::READMODE, {0, 1}}, {SoPlex::SOLVEMODE, {0, 1, 2}},
+         {SoPlex::CHECKMODE, {0, 1, 2}}, {SoPlex::TIMER, {0, 1, 2}}, {SoPlex::HYPER_PRICING, {0, 1, 2}}, {SoPlex::RATFAC_MINSTALLS, {0, 2}},
+         {SoPlex::SOLUTION_POLISHING, {0, 1, 2}}, {SoPlex::STATTIMER, {0, 1, 2}},
+      };
+      if(g.chance(0.3))
+      {
+         code = g.range(0, SoPlex::INTPARAM_COUNT - 1);
+         value = g.chance(0.5) ? SoPlex::Settings::intParam.defaultValue[code] : c.M->intParam((SoPlex::IntParam)code);
+         if(code == SoPlex::VERBOSITY) value = 0;
+      }
+      else
+      {
+         auto& e = g.pick(safe);
+         code = e.first;
+         value = g.pick(e.second);
+      }
+   }
+   vlog("  setIntParam(%s=%d)", SoPlex::Settings::intParam.name[code].c_str(), value);
+   {
+      Call _(c, F_setIntParam);
+      SoPlex_setIntParam(c.H, code, value);
+   }
+   c.M->setIntParam((SoPlex::IntParam)code, value);
+   sink().seen("intparam_codes", (uint64_t)code);
+   post(c, F_setIntParam);
+   return true;
+}
+static bool opSetBoolParam(Ctx& c)
+{
+   Rng& g = c.g;
+   static const std::vector<int> toggle = {SoPlex::LIFTING, SoPlex::EQTRANS, SoPlex::TESTDUALINF, SoPlex::RATFAC, SoPlex::ACCEPTCYCLING, SoPlex::RATREC,
+                                           SoPlex::POWERSCALING, SoPlex::RATFACJUMP, SoPlex::ROWBOUNDFLIPS, SoPlex::PERSISTENTSCALING,
+                                           SoPlex::FULLPERTURBATION, SoPlex::ENSURERAY, SoPlex::FORCEBASIC, SoPlex::SIMPLIFIER_SINGLETONCOLS,
+                                           SoPlex::SIMPLIFIER_DUALFIX, SoPlex::SIMPLIFIER_DOMINATEDCOLS
+                                          };
+   int code, value;
+   if(g.chance(0.35))
+   {
+      code = g.range(0, SoPlex::BOOLPARAM_COUNT - 1);
+      value = g.chance(0.5) ? (int)SoPlex::Settings::boolParam.defaultValue[code] : (int)c.M->boolParam((SoPlex::BoolParam)code);
+   }
+   else
+   {
+      code = g.pick(toggle);
+      value = g.range(0, 1);
+   }
+   vlog("  setBoolParam(%s=%d)", SoPlex::Settings::boolParam.name[code].c_str(), value);
+   {
+      Call _(c, F_setBoolParam);
+      SoPlex_setBoolParam(c.H, code, value);
+   }
+   c.M->setBoolParam((SoPlex::BoolParam)code, value != 0);
+   sink().seen("boolparam_codes", (uint64_t)code);
+   post(c, F_setBoolParam);
+   return true;
+}
+static bool opSetRealParam(Ctx& c)
+{
+   Rng& g = c.g;
+   static const std::vector<std::pair<int, std::vector<double>>> safe =
+   {
+      {SoPlex::FEASTOL, {1e-6, 1e-9, 1e-4, 1e-7}}, {SoPlex::OPTTOL, {1e-6, 1e-9, 1e-4, 1e-7}}, {SoPlex::TIMELIMIT, {1e6, 3600.0}},
+      {SoPlex::OBJLIMIT_LOWER, {-1e50, -5.0}}, {SoPlex::OBJLIMIT_UPPER, {1e50, 5.0}}, {SoPlex::OBJ_OFFSET, {0.0, 3.0, -2.5}},
+      {SoPlex::MIN_MARKOWITZ, {0.01, 0.1, 0.5}}, {SoPlex::FPFEASTOL, {1e-9, 1e-6}}, {SoPlex::FPOPTTOL, {1e-9, 1e-6}},
+      {SoPlex::SPARSITY_THRESHOLD, {0.0, 0.6, 1.0}}, {SoPlex::REPRESENTATION_SWITCH, {0.5, 1.2, 5.0}}, {SoPlex::LIFTMINVAL, {0.000976562, 0.01}},
+      {SoPlex::LIFTMAXVAL, {1024.0, 100.0}},
+   };
+   int code;
+   double value;
+   if(g.chance(0.4))
+   {
+      code = g.range(0, SoPlex::REALPARAM_COUNT - 1);
+      value = g.chance(0.5) ? SoPlex::Settings::realParam.defaultValue[code] : c.M->realParam((SoPlex::RealParam)code);
+      if(code == SoPlex::INFTY) value = c.M->realParam(SoPlex::INFTY);
+   }
+   else
+   {
+      auto& e = g.pick(safe);
+      code = e.first;
+      value = g.pick(e.second);
+   }
+   vlog("  setRealParam(%s=%g)", SoPlex::Settings::realParam.name[code].c_str(), value);
+   {
+      Call _(c, F_setRealParam);
+      SoPlex_setRealParam(c.H, code, value);
+   }
+   c.M->setRealParam((SoPlex::RealParam)code, value);
+   sink().seen("realparam_codes", (uint64_t)code);
+   post(c, F_setRealParam);
+   return true;
+}
+static bool opGetIntParam(Ctx& c)
+{
+   int code = c.g.range(0, SoPlex::INTPARAM_COUNT - 1);
+   int v;
+   {
+      Call _(c, F_getIntParam);
+      v = SoPlex_getIntParam(c.H, code);
+   }
+   int w = c.M->intParam((SoPlex::IntParam)code);
+   if(v != w) viol(c, F_getIntParam, "return-mismatch", "SoPlex_getIntParam(" + SoPlex::Settings::intParam.name[code] + ") = " + std::to_string(v) + ", C++ intParam = " + std::to_string(w));
+   post(c, F_getIntParam);
+   return true;
+}
+static bool opSetRational(Ctx& c)
+{
+   {
+      Call _(c, F_setRational);
+      SoPlex_setRational(c.H);
+   }
+   // the documented effect ("enables rational solving mode"), spelt out with the C++ enumerators
+   c.M->setIntParam(SoPlex::READMODE, SoPlex::READMODE_RATIONAL);
+   c.M->setIntParam(SoPlex::SOLVEMODE, SoPlex::SOLVEMODE_RATIONAL);
+   c.M->setIntParam(SoPlex::CHECKMODE, SoPlex::CHECKMODE_RATIONAL);
+   c.M->setIntParam(SoPlex::SYNCMODE, SoPlex::SYNCMODE_AUTO);
+   c.M->setRealParam(SoPlex::FEASTOL, 0.0);
+   c.M->setRealParam(SoPlex::OPTTOL, 0.0);
+   post(c, F_setRational);
+   return true;
+}
+static bool opNumRowsCols(Ctx& c, bool rows)
+{
+   int v;
+   if(rows)
+   {
+      Call _(c, F_numRows);
+      v = SoPlex_numRows(c.H);
+   }
+   else
+   {
+      Call _(c, F_numCols);
+      v = SoPlex_numCols(c.H);
+   }
+   int w = rows ? c.M->numRows() : c.M->numCols();
+   Fn f = rows ? F_numRows : F_numCols;
+   if(v != w) viol(c, f, "return-mismatch", std::string(FN[f]) + " = " + std::to_string(v) + ", C++ = " + std::to_string(w));
+   post(c, f);
+   return true;
+}
+
+// ---- real LP construction
+// contract (header + C test): `rowentries` is a dense array of `rowsize` coefficients for columns 0..rowsize-1 (exactly
+// rowsize elements are readable); `nnonzeros` is the number of non-zeros among them (capacity hint: the true count or
+// larger); entries beyond the current number of columns create columns, as in the C test (row added to an empty LP).
+static int pickNnz(Rng& g, int nz)
+{
+   return g.chance(0.7) ? nz : nz + g.range(1, 4);
+}
+static bool opAddRowReal(Ctx& c)
+{
+   Rng& g = c.g;
+   if(c.M->numRows() >= MAXDIM) return false;
+   int len = pickDenseLen(g, c.M->numCols()), nz;
+   std::vector<double> e = pickDense(g, len, nz);
+   int nnz = pickNnz(g, nz);
+   double lo, hi;
+   pickRangeD(g, INF(c), lo, hi);
+   InArr<double> a(e);
+   vlog("  addRowReal(len=%d nnz=%d [%g,%g])", len, nnz, lo, hi);
+   {
+      Call _(c, F_addRowReal);
+      SoPlex_addRowReal(c.H, a.p, len, nnz, lo, hi);
+   }
+   if(!a.unchanged(e)) viol(c, F_addRowReal, "input-modified", "the input array was modified");
+   DSVectorBase<double> row(nz + 1);
+   for(int i = 0; i < len; i++) if(e[(size_t)i] != 0.0) row.add(i, e[(size_t)i]);
+   c.M->addRowReal(LPRowBase<double>(lo, row, hi));
+   if(nz == 0) sink().count("args.zero_nonzeros");
+   if(nnz > nz) sink().count("args.nnonzeros_larger_than_needed");
+   if(len > c.M->numCols() - 0 && false) {}
+   post(c, F_addRowReal);
+   return true;
+}
+static bool opAddColReal(Ctx& c)
+{
+   Rng& g = c.g;
+   if(c.M->numCols() >= MAXDIM) return false;
+   int len = pickDenseLen(g, c.M->numRows()), nz;
+   std::vector<double> e = pickDense(g, len, nz);
+   int nnz = pickNnz(g, nz);
+   double lo, hi, obj = g.chance(0.2) ? 0.0 : pickFinite(g);
+   pickRangeD(g, INF(c), lo, hi);
+   InArr<double> a(e);
+   vlog("  addColReal(len=%d nnz=%d obj=%g [%g,%g])", len, nnz, obj, lo, hi);
+   {
+      Call _(c, F_addColReal);
+      SoPlex_addColReal(c.H, a.p, len, nnz, obj, lo, hi);
+   }
+   if(!a.unchanged(e)) viol(c, F_addColReal, "input-modified", "the input array was modified");
+   DSVectorBase<double> col(nz + 1);
+   for(int i = 0; i < len; i++) if(e[(size_t)i] != 0.0) col.add(i, e[(size_t)i]);
+   c.M->addColReal(LPColBase<double>(obj, col, hi, lo));
+   if(nz == 0) sink().count("args.zero_nonzeros");
+   if(nnz > nz) sink().count("args.nnonzeros_larger_than_needed");
+   post(c, F_addColReal);
+   return true;
+}
+static bool opRemoveRowReal(Ctx& c)
+{
+   int m = c.M->numRows();
+   if(m == 0) return false;
+   int i = c.g.range(0, m - 1);
+   {
+      Call _(c, F_removeRowReal);
+      SoPlex_removeRowReal(c.H, i);
+   }
+   c.M->removeRowReal(i);
+   post(c, F_removeRowReal);
+   return true;
+}
+static bool opRemoveColReal(Ctx& c)
+{
+   int n = c.M->numCols();
+   if(n == 0) return false;
+   int j = c.g.range(0, n - 1);
+   {
+      Call _(c, F_removeColReal);
+      SoPlex_removeColReal(c.H, j);
+   }
+   c.M->removeColReal(j);
+   post(c, F_removeColReal);
+   return true;
+}
+static bool opClearLPReal(Ctx& c)
+{
+   {
+      Call _(c, F_clearLPReal);
+      SoPlex_clearLPReal(c.H);
+   }
+   c.M->clearLPReal();
+   post(c, F_clearLPReal);
+   return true;
+}
+
+// ---- real vector changes: the C++ calls require a vector of exactly numCols / numRows entries, so dim is exact
+static VectorBase<double> toVec(const std::vector<double>& v)
+{
+   VectorBase<double> r((int)v.size());
+   for(size_t i = 0; i < v.size(); i++) r[(int)i] = v[i];
+   return r;
+}
+enum VecKind { VK_OBJ, VK_LHS, VK_RHS, VK_RANGE, VK_BOUNDS, VK_LOWER, VK_UPPER };
+static bool opChangeVecReal(Ctx& c, VecKind kind)
+{
+   Rng& g = c.g;
+   bool rowwise = kind == VK_LHS || kind == VK_RHS || kind == VK_RANGE;
+   int dim = rowwise ? c.M->numRows() : c.M->numCols();
+   double inf = INF(c);
+   std::vector<double> a((size_t)dim), b((size_t)dim);
+   for(int i = 0; i < dim; i++)
+   {
+      double lo, hi;
+      pickRangeD(g, inf, lo, hi);
+      switch(kind)
+      {
+      case VK_OBJ:
+         a[(size_t)i] = g.chance(0.2) ? 0.0 : pickFinite(g);
+         break;
+      case VK_LHS:     // must stay <= current rhs
+         a[(size_t)i] = std::min(lo, c.M->rhsReal(i));
+         break;
+      case VK_RHS:
+         a[(size_t)i] = std::max(hi, c.M->lhsReal(i));
+         break;
+      case VK_LOWER:
+         a[(size_t)i] = std::min(lo, c.M->upperReal(i));
+         break;
+      case VK_UPPER:
+         a[(size_t)i] = std::max(hi, c.M->lowerReal(i));
+         break;
+      default:
+         a[(size_t)i] = lo;
+         b[(size_t)i] = hi;
+      }
+   }
+   InArr<double> pa(a), pb(b);
+   Fn f;
+   switch(kind)
+   {
+   case VK_OBJ:
+      f = F_changeObjReal;
+      {
+         Call _(c, f);
+         SoPlex_changeObjReal(c.H, pa.p, dim);
+      }
+      c.M->changeObjReal(toVec(a));
+      break;
+   case VK_LHS:
+      f = F_changeLhsReal;
+      {
+         Call _(c, f);
+         SoPlex_changeLhsReal(c.H, pa.p, dim);
+      }
+      c.M->changeLhsReal(toVec(a));
+      break;
+   case VK_RHS:
+      f = F_changeRhsReal;
+      {
+         Call _(c, f);
+         SoPlex_changeRhsReal(c.H, pa.p, dim);
+      }
+      c.M->changeRhsReal(toVec(a));
+      break;
+   case VK_RANGE:
+      f = F_changeRangeReal;
+      {
+         Call _(c, f);
+         SoPlex_changeRangeReal(c.H, pa.p, pb.p, dim);
+      }
+      c.M->changeRangeReal(toVec(a), toVec(b));
+      break;
+   case VK_BOUNDS:
+      f = F_changeBoundsReal;
+      {
+         Call _(c, f);
+         SoPlex_changeBoundsReal(c.H, pa.p, pb.p, dim);
+      }
+      c.M->changeBoundsReal(toVec(a), toVec(b));
+      break;
+   case VK_LOWER:
+      f = F_changeLowerReal;
+      {
+         Call _(c, f);
+         SoPlex_changeLowerReal(c.H, pa.p, dim);
+      }
+      c.M->changeLowerReal(toVec(a));
+      break;
+   default:
+      f = F_changeUpperReal;
+      {
+         Call _(c, f);
+         SoPlex_changeUpperReal(c.H, pa.p, dim);
+      }
+      c.M->changeUpperReal(toVec(a));
+      break;
+   }
+   if(!pa.unchanged(a) || ((kind == VK_RANGE || kind == VK_BOUNDS) && !pb.unchanged(b))) viol(c, f, "input-modified", "an input array was modified");
+   if(dim == 0) sink().count("args.dim_zero");
+   post(c, f);
+   return true;
+}
+enum OneKind { OK_ROWLHS, OK_ROWRHS, OK_ROWRANGE, OK_VARBOUNDS, OK_VARLOWER, OK_VARUPPER };
+static bool opChangeOneReal(Ctx& c, OneKind kind)
+{
+   Rng& g = c.g;
+   bool rowwise = kind == OK_ROWLHS || kind == OK_ROWRHS || kind == OK_ROWRANGE;
+   int dim = rowwise ? c.M->numRows() : c.M->numCols();
+   if(dim == 0) return false;
+   int i = g.range(0, dim - 1);
+   double lo, hi;
+   pickRangeD(g, INF(c), lo, hi);
+   Fn f;
+   switch(kind)
+   {
+   case OK_ROWLHS:
+      f = F_changeRowLhsReal;
+      lo = std::min(lo, c.M->rhsReal(i));
+      {
+         Call _(c, f);
+         SoPlex_changeRowLhsReal(c.H, i, lo);
+      }
+      c.M->changeLhsReal(i, lo);
+      break;
+   case OK_ROWRHS:
+      f = F_changeRowRhsReal;
+      hi = std::max(hi, c.M->lhsReal(i));
+      {
+         Call _(c, f);
+         SoPlex_changeRowRhsReal(c.H, i, hi);
+      }
+      c.M->changeRhsReal(i, hi);
+      break;
+   case OK_ROWRANGE:
+      f = F_changeRowRangeReal;
+      {
+         Call _(c, f);
+         SoPlex_changeRowRangeReal(c.H, i, lo, hi);
+      }
+      c.M->changeRangeReal(i, lo, hi);
+      break;
+   case OK_VARBOUNDS:
+      f = F_changeVarBoundsReal;
+      {
+         Call _(c, f);
+         SoPlex_changeVarBoundsReal(c.H, i, lo, hi);
+      }
+      c.M->changeBoundsReal(i, lo, hi);
+      break;
+   case OK_VARLOWER:
+      f = F_changeVarLowerReal;
+      lo = std::min(lo, c.M->upperReal(i));
+      {
+         Call _(c, f);
+         SoPlex_changeVarLowerReal(c.H, i, lo);
+      }
+      c.M->changeLowerReal(i, lo);
+      break;
+   default:
+      f = F_changeVarUpperReal;
+      hi = std::max(hi, c.M->lowerReal(i));
+      {
+         Call _(c, f);
+         SoPlex_changeVarUpperReal(c.H, i, hi);
+      }
+      c.M->changeUpperReal(i, hi);
+      break;
+   }
+   vlog("  %s(%d, %g, %g)", FN[f], i, lo, hi);
+   post(c, f);
+   return true;
+}
+// ---- rational LP construction / changes (only with a rational LP, i.e. sync mode auto or manual)
+static std::string pairStr(const LPair& p)
+{
+   return std::to_string(p.n) + "/" + std::to_string(p.d);
+}
+static void pickDensePairs(Rng& g, int len, std::vector<long>& nums, std::vector<long>& dens, int& nz)
+{
+   nums.assign((size_t)len, 0);
+   dens.assign((size_t)len, 1);
+   int t = g.range(0, 9);
+   double dens_ = t == 0 ? 0.0 : t == 1 ? 1.0 : 0.55;
+   nz = 0;
+   for(int i = 0; i < len; i++)
+   {
+      dens[(size_t)i] = pickDen(g);
+      if(g.chance(dens_))
+      {
+         nums[(size_t)i] = pickNum(g, false);
+         nz++;
+      }
+   }
+}
+static void countPairs(const std::vector<long>& nums, const std::vector<long>& dens)
+{
+   for(size_t i = 0; i < nums.size(); i++)
+   {
+      if(nums[i] < 0) sink().count("args.negative_numerator");
+      if(dens[i] == 1 && nums[i] != 0) sink().count("args.denominator_one");
+      if(nums[i] > BIG62 / 2 || nums[i] < -BIG62 / 2 || dens[i] > BIG62 / 2) sink().count("args.near_2^62");
+      if(dens[i] < 0) sink().count("args.negative_denominator");
+   }
+}
+static bool opAddRowRational(Ctx& c)
+{
+   Rng& g = c.g;
+   if(!ratLP(c) || c.M->numRowsRational() >= MAXDIM || c.M->numRows() >= MAXDIM) return false;
+   int len = pickDenseLen(g, c.M->numColsRational()), nz;
+   std::vector<long> nums, dens;
+   pickDensePairs(g, len, nums, dens, nz);
+   int nnz = pickNnz(g, nz);
+   LPair lo, hi;
+   pickRangeQ(g, lo, hi);
+   InArr<long> pn(nums), pd(dens);
+   vlog("  addRowRational(len=%d nnz=%d [%s,%s])", len, nnz, pairStr(lo).c_str(), pairStr(hi).c_str());
+   {
+      Call _(c, F_addRowRational);
+      SoPlex_addRowRational(c.H, pn.p, pd.p, len, nnz, lo.n, lo.d, hi.n, hi.d);
+   }
+   if(!pn.unchanged(nums) || !pd.unchanged(dens)) viol(c, F_addRowRational, "input-modified", "an input array was modified");
+   DSVectorBase<Rational> row(nz + 1);
+   for(int i = 0; i < len; i++) if(nums[(size_t)i] != 0) row.add(i, mkQ(nums[(size_t)i], dens[(size_t)i]));
+   c.M->addRowRational(LPRowBase<Rational>(mkQ(lo.n, lo.d), row, mkQ(hi.n, hi.d)));
+   countPairs(nums, dens);
+   countPairs({lo.n, hi.n}, {lo.d, hi.d});
+   if(nz == 0) sink().count("args.zero_nonzeros");
+   post(c, F_addRowRational);
+   return true;
+}
+static bool opAddColRational(Ctx& c)
+{
+   Rng& g = c.g;
+   if(!ratLP(c) || c.M->numColsRational() >= MAXDIM || c.M->numCols() >= MAXDIM) return false;
+   int len = pickDenseLen(g, c.M->numRowsRational()), nz;
+   std::vector<long> nums, dens;
+   pickDensePairs(g, len, nums, dens, nz);
+   int nnz = pickNnz(g, nz);
+   LPair lo, hi, obj = pickPair(g);
+   pickRangeQ(g, lo, hi);
+   InArr<long> pn(nums), pd(dens);
+   vlog("  addColRational(len=%d nnz=%d obj=%s [%s,%s])", len, nnz, pairStr(obj).c_str(), pairStr(lo).c_str(), pairStr(hi).c_str());
+   {
+      Call _(c, F_addColRational);
+      SoPlex_addColRational(c.H, pn.p, pd.p, len, nnz, obj.n, obj.d, lo.n, lo.d, hi.n, hi.d);
+   }
+   if(!pn.unchanged(nums) || !pd.unchanged(dens)) viol(c, F_addColRational, "input-modified", "an input array was modified");
+   DSVectorBase<Rational> col(nz + 1);
+   for(int i = 0; i < len; i++) if(nums[(size_t)i] != 0) col.add(i, mkQ(nums[(size_t)i], dens[(size_t)i]));
+   c.M->addColRational(LPColBase<Rational>(mkQ(obj.n, obj.d), col, mkQ(hi.n, hi.d), mkQ(lo.n, lo.d)));
+   countPairs(nums, dens);
+   countPairs({lo.n, hi.n, obj.n}, {lo.d, hi.d, obj.d});
+   if(nz == 0) sink().count("args.zero_nonzeros");
+   post(c, F_addColRational);
+   return true;
+}
+static VectorBase<Rational> toVecQ(const std::vector<long>& n, const std::vector<long>& d)
+{
+   VectorBase<Rational> r((int)n.size());
+   for(size_t i = 0; i < n.size(); i++) r[(int)i] = mkQ(n[i], d[i]);
+   return r;
+}
+// kind 0: objective, 1: lhs, 2: rhs
+static bool opChangeVecRational(Ctx& c, int kind)
+{
+   Rng& g = c.g;
+   if(!ratLP(c)) return false;
+   int dim = kind == 0 ? c.M->numColsRational() : c.M->numRowsRational();
+   std::vector<long> nums((size_t)dim), dens((size_t)dim);
+   for(int i = 0; i < dim; i++)
+   {
+      LPair p = pickPair(g);
+      if(kind == 1 && mkQ(p.n, p.d) > c.M->rhsRational(i))
+      {
+         long a, b;      // keep lhs <= rhs: reuse the current rhs if it is expressible, else a very small value
+         if(fitsLong(c.M->rhsRational(i), a, b)) p = LPair{a, b};
+         else p = LPair{-(BIG62 - 1), 1};
+      }
+      if(kind == 2 && mkQ(p.n, p.d) < c.M->lhsRational(i))
+      {
+         long a, b;
+         if(fitsLong(c.M->lhsRational(i), a, b)) p = LPair{a, b};
+         else p = LPair{BIG62 - 1, 1};
+      }
+      nums[(size_t)i] = p.n;
+      dens[(size_t)i] = p.d;
+   }
+   for(int i = 0; i < dim; i++)
+   {
+      if(kind == 1 && mkQ(nums[(size_t)i], dens[(size_t)i]) > c.M->rhsRational(i)) return false;
+      if(kind == 2 && mkQ(nums[(size_t)i], dens[(size_t)i]) < c.M->lhsRational(i)) return false;
+   }
+   InArr<long> pn(nums), pd(dens);
+   Fn f = kind == 0 ? F_changeObjRational : kind == 1 ? F_changeLhsRational : F_changeRhsRational;
+   {
+      Call _(c, f);
+      if(kind == 0) SoPlex_changeObjRational(c.H, pn.p, pd.p, dim);
+      else if(kind == 1) SoPlex_changeLhsRational(c.H, pn.p, pd.p, dim);
+      else SoPlex_changeRhsRational(c.H, pn.p, pd.p, dim);
+   }
+   if(!pn.unchanged(nums) || !pd.unchanged(dens)) viol(c, f, "input-modified", "an input array was modified");
+   if(kind == 0) c.M->changeObjRational(toVecQ(nums, dens));
+   else if(kind == 1) c.M->changeLhsRational(toVecQ(nums, dens));
+   else c.M->changeRhsRational(toVecQ(nums, dens));
+   countPairs(nums, dens);
+   if(dim == 0) sink().count("args.dim_zero");
+   post(c, f);
+   return true;
+}
+static bool opChangeVarBoundsRational(Ctx& c)
+{
+   if(!ratLP(c) || c.M->numColsRational() == 0) return false;
+   int j = c.g.range(0, c.M->numColsRational() - 1);
+   LPair lo, hi;
+   pickRangeQ(c.g, lo, hi);
+   vlog("  changeVarBoundsRational(%d, %s, %s)", j, pairStr(lo).c_str(), pairStr(hi).c_str());
+   {
+      Call _(c, F_changeVarBoundsRational);
+      SoPlex_changeVarBoundsRational(c.H, j, lo.n, lo.d, hi.n, hi.d);
+   }
+   c.M->changeBoundsRational(j, mkQ(lo.n, lo.d), mkQ(hi.n, hi.d));
+   countPairs({lo.n, hi.n}, {lo.d, hi.d});
+   post(c, F_changeVarBoundsRational);
+   return true;
+}
+
+// ---- solve and scalar getters
+static bool rationalSolveSelected(Ctx& c)
+{
+   int sm = c.M->intParam(SoPlex::SOLVEMODE);
+   return !(sm == SoPlex::SOLVEMODE_REAL || (sm == SoPlex::SOLVEMODE_AUTO && c.M->realParam(SoPlex::FEASTOL) >= 1e-9
+            && c.M->realParam(SoPlex::OPTTOL) >= 1e-9));
+}
+static bool opOptimize(Ctx& c)
+{
+   // manual sync mode: an exact solve requires synchronised LPs and the C interface has no sync call -> real solves only
+   if(c.M->intParam(SoPlex::SYNCMODE) == SoPlex::SYNCMODE_MANUAL && rationalSolveSelected(c)) return false;
+   int st;
+   {
+      Call _(c, F_optimize);
+      st = SoPlex_optimize(c.H);
+   }
+   int sm = (int)c.M->optimize();
+   int sh = (int)c.h().status();
+   sink().count(std::string("status.") + std::to_string(st));
+   sink().count(rationalSolveSelected(c) ? "solves.rational" : "solves.real");
+   if(c.M->numIterations() > 0) sink().count("solves.with_iterations");
+   vlog("  optimize -> %d (mirror %d) iters %d", st, sm, c.M->numIterations());
+   if(st != sh) viol(c, F_optimize, "status-code", "SoPlex_optimize returned " + std::to_string(st) + " but status() of the same object is the enumerator " + std::to_string(sh));
+   else if(st != sm) viol(c, F_optimize, "return-mismatch", "SoPlex_optimize returned " + std::to_string(st) + ", C++ optimize() on the mirror " + std::to_string(sm));
+   post(c, F_optimize);
+   return true;
+}
+static bool opScalarGetter(Ctx& c, Fn f)
+{
+   switch(f)
+   {
+   case F_getStatus:
+   {
+      int v;
+      {
+         Call _(c, f);
+         v = SoPlex_getStatus(c.H);
+      }
+      int w = (int)c.M->status(), x = (int)c.h().status();
+      if(v != x || v != w) viol(c, f, "status-code", "SoPlex_getStatus = " + std::to_string(v) + ", C++ status() enumerator " + std::to_string(x) + " (mirror " + std::to_string(w) + ")");
+      break;
+   }
+   case F_getSolvingTime:
+   {
+      double v;
+      {
+         Call _(c, f);
+         v = SoPlex_getSolvingTime(c.H);
+      }
+      double x = c.h().solveTime();      // timers differ between objects: compare with the same object's accessor
+      if(!sameBits(v, x)) viol(c, f, "return-mismatch", "SoPlex_getSolvingTime = " + ds(v) + ", solveTime() of the same object = " + ds(x));
+      break;
+   }
+   case F_getNumIterations:
+   {
+      int v;
+      {
+         Call _(c, f);
+         v = SoPlex_getNumIterations(c.H);
+      }
+      int w = c.M->numIterations();
+      if(v != w) viol(c, f, "return-mismatch", "SoPlex_getNumIterations = " + std::to_string(v) + ", C++ numIterations() = " + std::to_string(w));
+      break;
+   }
+   case F_objValueReal:
+   {
+      double v;
+      {
+         Call _(c, f);
+         v = SoPlex_objValueReal(c.H);
+      }
+      double w = c.M->objValueReal();
+      if(!sameBits(v, w)) viol(c, f, "return-mismatch", "SoPlex_objValueReal = " + ds(v) + ", C++ objValueReal() = " + ds(w));
+      break;
+   }
+   default:
+      return false;
+   }
+   post(c, f);
+   return true;
+}
+static bool opBasisStatus(Ctx& c, bool row)
+{
+   int dim = row ? c.M->numRows() : c.M->numCols();
+   if(dim == 0) return false;
+   int i = c.g.range(0, dim - 1), v;
+   Fn f = row ? F_basisRowStatus : F_basisColStatus;
+   {
+      Call _(c, f);
+      v = row ? SoPlex_basisRowStatus(c.H, i) : SoPlex_basisColStatus(c.H, i);
+   }
+   int w = row ? (int)c.M->basisRowStatus(i) : (int)c.M->basisColStatus(i);
+   sink().count(std::string("basisstatus.") + std::to_string(v));
+   // documented codes are the VarStatus enumerators
+   static_assert((int)SPxSolverBase<double>::ON_UPPER == 0 && (int)SPxSolverBase<double>::ON_LOWER == 1 && (int)SPxSolverBase<double>::FIXED == 2
+                 && (int)SPxSolverBase<double>::ZERO == 3 && (int)SPxSolverBase<double>::BASIC == 4 && (int)SPxSolverBase<double>::UNDEFINED == 5, "VarStatus codes");
+   if(v != w) viol(c, f, "status-code", std::string(FN[f]) + "(" + std::to_string(i) + ") = " + std::to_string(v) + ", C++ enumerator " + std::to_string(w));
+   post(c, f);
+   return true;
+}
+// ---- array getters
+// getPrimalReal / getDualReal / getRedCostReal forward to C++ getXxxReal(R*, dim): dim is the length of the array; the
+// C++ call writes numCols/numRows entries if a solution exists and dim is large enough, otherwise nothing.
+static bool opSolVecReal(Ctx& c, Fn f)
+{
+   Rng& g = c.g;
+   int cur = f == F_getDualReal ? c.M->numRows() : c.M->numCols();
+   int dim = pickOutDim(g, cur);
+   if(cur > 0 && g.chance(0.05)) dim = cur - 1;        // too short: the C++ call refuses and must not write
+   bool pad = padOutputs(g);
+   OutArr<double> a(dim, pad, canD()), b(dim, false, canD());
+   bool ok;
+   {
+      Call _(c, f);
+      if(f == F_getPrimalReal) SoPlex_getPrimalReal(c.H, a.p, dim);
+      else if(f == F_getDualReal) SoPlex_getDualReal(c.H, a.p, dim);
+      else SoPlex_getRedCostReal(c.H, a.p, dim);
+   }
+   if(f == F_getPrimalReal) ok = c.M->getPrimalReal(b.p, dim);
+   else if(f == F_getDualReal) ok = c.M->getDualReal(b.p, dim);
+   else ok = c.M->getRedCostReal(b.p, dim);
+   sink().count(ok ? "getter.solution_available" : "getter.no_solution");
+   if(dim > cur) sink().count("args.dim_larger_than_needed");
+   if(!a.padsIntact()) viol(c, f, "writes-beyond-dim", std::string(FN[f]) + " wrote outside the " + std::to_string(dim) + " elements of its array");
+   for(int i = 0; i < dim; i++) if(!sameBits(a.p[i], b.p[i]))
+      {
+         viol(c, f, "value-mismatch", "element " + std::to_string(i) + " of " + std::to_string(dim) + ": C array " + ds(a.p[i]) + ", C++ getter " + ds(b.p[i]) +
+              (ok ? "" : " (C++ call returned false: nothing may be written)"));
+         break;
+      }
+   post(c, f);
+   return true;
+}
+// getLowerReal / getUpperReal / getObjReal(array, dim): dim is the length of the array, at least numCols (the
+// interpretation closest to the other getters; the C test does not call these); elements 0..numCols-1 carry the values.
+static bool opColVecGetter(Ctx& c, Fn f)
+{
+   Rng& g = c.g;
+   int n = c.M->numCols();
+   int dim = pickOutDim(g, n);
+   bool pad = padOutputs(g);
+   OutArr<double> a(dim, pad, canD());
+   {
+      Call _(c, f);
+      if(f == F_getLowerReal) SoPlex_getLowerReal(c.H, a.p, dim);
+      else if(f == F_getUpperReal) SoPlex_getUpperReal(c.H, a.p, dim);
+      else SoPlex_getObjReal(c.H, a.p, dim);
+   }
+   if(dim > n) sink().count("args.dim_larger_than_needed");
+   if(c.M->_realLP->isScaled()) sink().count("getter.on_scaled_lp");
+   if(!a.padsIntact()) viol(c, f, "writes-beyond-dim", std::string(FN[f]) + " wrote outside the " + std::to_string(dim) + " elements of its array");
+   for(int j = 0; j < n; j++)
+   {
+      double w = f == F_getLowerReal ? c.M->lowerReal(j) : f == F_getUpperReal ? c.M->upperReal(j) : c.M->objReal(j);
+      if(!sameBits(a.p[j], w))
+      {
+         viol(c, f, "value-mismatch", "element " + std::to_string(j) + ": C array " + ds(a.p[j]) + ", C++ getter " + ds(w));
+         break;
+      }
+   }
+   post(c, f);
+   return true;
+}
+// getRowVectorReal(i, &nnz, indices, coefs): the caller cannot know the number of non-zeros in advance; the only safe
+// length is numCols (sometimes larger here).  The first *nnz elements carry the entries.
+static bool opGetRowVectorReal(Ctx& c)
+{
+   Rng& g = c.g;
+   int m = c.M->numRows(), n = c.M->numCols();
+   if(m == 0) return false;
+   int i = g.range(0, m - 1), L = pickOutDim(g, n);
+   bool pad = padOutputs(g);
+   OutArr<long> idx(L, pad, CAN_L);
+   OutArr<double> coef(L, pad, canD());
+   OutArr<int> nnz(1, pad, CAN_I);
+   {
+      Call _(c, F_getRowVectorReal);
+      SoPlex_getRowVectorReal(c.H, i, nnz.p, idx.p, coef.p);
+   }
+   DSVectorBase<double> row;
+   c.M->getRowVectorReal(i, row);
+   Fn f = F_getRowVectorReal;
+   if(!idx.padsIntact() || !coef.padsIntact() || !nnz.padsIntact()) viol(c, f, "writes-beyond-dim", "wrote outside arrays of numCols+" + std::to_string(L - n) + " elements");
+   if(nnz.p[0] != row.size()) viol(c, f, "value-mismatch", "*nnonzeros = " + std::to_string(nnz.p[0]) + ", C++ row has " + std::to_string(row.size()));
+   else
+   {
+      std::map<long, uint64_t> x, y;
+      for(int k = 0; k < row.size(); k++)
+      {
+         x[idx.p[k]] = dbits(coef.p[k]);
+         y[row.index(k)] = dbits(row.value(k));
+      }
+      if(x != y) viol(c, f, "value-mismatch", "entries of row " + std::to_string(i) + " differ from C++ getRowVectorReal");
+   }
+   if(row.size() == 0) sink().count("getter.empty_row");
+   post(c, f);
+   return true;
+}
+static bool opGetRowBoundsReal(Ctx& c)
+{
+   int m = c.M->numRows();
+   if(m == 0) return false;
+   int i = c.g.range(0, m - 1);
+   bool pad = padOutputs(c.g);
+   OutArr<double> lb(1, pad, canD()), ub(1, pad, canD());
+   {
+      Call _(c, F_getRowBoundsReal);
+      SoPlex_getRowBoundsReal(c.H, i, lb.p, ub.p);
+   }
+   Fn f = F_getRowBoundsReal;
+   if(!lb.padsIntact() || !ub.padsIntact()) viol(c, f, "writes-beyond-dim", "wrote outside the single output values");
+   if(!sameBits(lb.p[0], c.M->lhsReal(i)) || !sameBits(ub.p[0], c.M->rhsReal(i)))
+      viol(c, f, "value-mismatch", "row " + std::to_string(i) + ": C [" + ds(lb.p[0]) + "," + ds(ub.p[0]) + "], C++ [" + ds(c.M->lhsReal(i)) + "," + ds(c.M->rhsReal(i)) + "]");
+   post(c, f);
+   return true;
+}
+// rational row getters hand back long numerator/denominator pairs: comparable only where the C++ value fits into longs
+static bool pairEquals(long num, long den, const Rational& q, bool& representable)
+{
+   long a, b;
+   representable = fitsLong(q, a, b);
+   if(!representable) return true;
+   return num == a && den == b;
+}
+static bool opGetRowBoundsRational(Ctx& c)
+{
+   if(!ratLP(c) || c.M->numRowsRational() == 0) return false;
+   int i = c.g.range(0, c.M->numRowsRational() - 1);
+   bool pad = padOutputs(c.g);
+   OutArr<long> ln(1, pad, CAN_L), ld(1, pad, CAN_L), un(1, pad, CAN_L), ud(1, pad, CAN_L);
+   {
+      Call _(c, F_getRowBoundsRational);
+      SoPlex_getRowBoundsRational(c.H, i, ln.p, ld.p, un.p, ud.p);
+   }
+   Fn f = F_getRowBoundsRational;
+   if(!ln.padsIntact() || !ld.padsIntact() || !un.padsIntact() || !ud.padsIntact()) viol(c, f, "writes-beyond-dim", "wrote outside the single output values");
+   bool r1, r2;
+   bool e1 = pairEquals(ln.p[0], ld.p[0], c.M->lhsRational(i), r1), e2 = pairEquals(un.p[0], ud.p[0], c.M->rhsRational(i), r2);
+   sink().count(r1 && r2 ? "getter.rational_pair_checked" : "getter.rational_pair_unrepresentable");
+   if(!e1 || !e2) viol(c, f, "value-mismatch", "row " + std::to_string(i) + ": C [" + std::to_string(ln.p[0]) + "/" + std::to_string(ld.p[0]) + "," + std::to_string(un.p[0]) + "/" +
+                          std::to_string(ud.p[0]) + "], C++ [" + c.M->lhsRational(i).str() + "," + c.M->rhsRational(i).str() + "]");
+   post(c, f);
+   return true;
+}
+static bool opGetRowVectorRational(Ctx& c)
+{
+   Rng& g = c.g;
+   if(!ratLP(c) || c.M->numRowsRational() == 0) return false;
+   int i = g.range(0, c.M->numRowsRational() - 1), n = c.M->numColsRational(), L = pickOutDim(g, n);
+   bool pad = padOutputs(g);
+   OutArr<long> idx(L, pad, CAN_L), cn(L, pad, CAN_L), cd(L, pad, CAN_L);
+   OutArr<int> nnz(1, pad, CAN_I);
+   if(c.M->rowVectorRational(i).size() == 0) sink().count("getter.empty_row");
+   else sink().count("getter.nonempty_rational_row");
+   {
+      Call _(c, F_getRowVectorRational);
+      SoPlex_getRowVectorRational(c.H, i, nnz.p, idx.p, cn.p, cd.p);
+   }
+   Fn f = F_getRowVectorRational;
+   const SVectorBase<Rational>& row = c.M->rowVectorRational(i);
+   if(!idx.padsIntact() || !cn.padsIntact() || !cd.padsIntact() || !nnz.padsIntact()) viol(c, f, "writes-beyond-dim", "wrote outside arrays of numCols+" + std::to_string(L - n) + " elements");
+   if(nnz.p[0] != row.size()) viol(c, f, "value-mismatch", "*nnonzeros = " + std::to_string(nnz.p[0]) + ", C++ row has " + std::to_string(row.size()));
+   else
+   {
+      std::map<long, std::string> x, y;
+      bool allrep = true;
+      for(int k = 0; k < row.size(); k++)
+      {
+         long a, b;
+         if(!fitsLong(row.value(k), a, b))
+         {
+            allrep = false;
+            break;
+         }
+         y[row.index(k)] = std::to_string(a) + "/" + std::to_string(b);
+         x[idx.p[k]] = std::to_string(cn.p[k]) + "/" + std::to_string(cd.p[k]);
+      }
+      sink().count(allrep ? "getter.rational_pair_checked" : "getter.rational_pair_unrepresentable");
+      if(allrep && x != y) viol(c, f, "value-mismatch", "entries of rational row " + std::to_string(i) + " differ from C++ rowVectorRational");
+   }
+   post(c, f);
+   return true;
+}
+
+// ---- returned strings: NUL-terminated inside their allocation, equal to the C++ value, releasable with free()
+static void checkString(Ctx& c, Fn f, char* p, const std::string& expect, bool releaseAsDocumented)
+{
+   if(p == nullptr)
+   {
+      viol(c, f, "null-string", "returned NULL");
+      return;
+   }
+   BlockInfo bi = blockInfo(p);
+   sink().count("string.checked");
+   sink().count("string.alloc_kind." + std::to_string(bi.kind));
+   const char* z = bi.size > 0 ? (const char*)memchr(p, 0, bi.size) : nullptr;
+   if(bi.size == 0) sink().count("string.block_size_unknown");
+   else if(z == nullptr)
+      viol(c, f, "unterminated", "returned block of " + std::to_string(bi.size) + " byte(s) contains no NUL; bytes [" + jesc(std::string(p, std::min<size_t>(bi.size, 40))) +
+           "], C++ value [" + expect + "]");
+   else if(std::string(p) != expect) viol(c, f, "string-mismatch", "returned [" + std::string(p).substr(0, 200) + "], C++ value [" + expect.substr(0, 200) + "]");
+   // release.  The header says "the caller needs to ensure the char array is freed"; a C caller has only free().
+   if(bi.kind == 2 || bi.kind == 3)
+   {
+      viol(c, f, "free-mismatch", std::string("the returned array is allocated with operator new") + (bi.kind == 2 ? "[]" : "") +
+           "; the header tells the C caller to free it, and free() on it is an allocator mismatch");
+      if(releaseAsDocumented && VL_ASAN) free(p);           // let AddressSanitizer have the last word (dedicated cases only)
+      else if(bi.kind == 2) delete[] p;
+      else delete p;
+   }
+   else if(bi.kind == 1) free(p);
+   else
+   {
+      sink().count("string.release_skipped");
+#if VL_ASAN
+      __lsan_ignore_object(p);
+#endif
+   }
+}
+static bool opObjValueRationalString(Ctx& c, bool documentedFree = false)
+{
+   char* p;
+   {
+      Call _(c, F_objValueRationalString);
+      p = SoPlex_objValueRationalString(c.H);
+   }
+   std::string expect = c.M->objValueRational().str();
+   g_track = (int)F_objValueRationalString;     // the release of the block belongs to this call's balance
+   checkString(c, F_objValueRationalString, p, expect, documentedFree);
+   g_track = -1;
+   post(c, F_objValueRationalString);
+   return true;
+}
+// getPrimalRationalString(dim): the header gives no meaning for dim; the C test passes numCols, which is the only value
+// for which the wrapper's own loop stays inside the vector the C++ getter returns -> dim = numCols.
+static bool opGetPrimalRationalString(Ctx& c, bool documentedFree = false)
+{
+   int dim = c.M->numCols();
+   if(c.M->_rationalLP != nullptr && c.M->numColsRational() != dim) return false;
+   char* p;
+   {
+      Call _(c, F_getPrimalRationalString);
+      p = SoPlex_getPrimalRationalString(c.H, dim);
+   }
+   VectorBase<Rational> v(dim);
+   bool ok = c.M->getPrimalRational(v);
+   sink().count(ok ? "getter.solution_available" : "getter.no_solution");
+   std::string expect;
+   for(int i = 0; i < dim; i++) expect += v[i].str() + " ";
+   checkString(c, F_getPrimalRationalString, p, expect, documentedFree);
+   post(c, F_getPrimalRationalString);
+   return true;
+}
 //@@OPS@@
